@@ -8,6 +8,9 @@ from vlib.core import Case
 ID = "C04"
 LEAN_TARGETS = ["ZmqVerif.Props.C04"]
 PEER_TYPES = wg.ALL12 + ["BOGUS", None]  # 12 names, unknown, missing
+# near-miss and over-long Socket-Type values (the RFC names are at most 6 octets): empty, lower case, a name with a
+# suffix, 8 / 9 / 10 / 16 / 255 / 300 octets
+ODD_TYPES = ["", "X", "req", "REQQ", "XREQ", "PUSHPULL", "PUSHPULL9", "SUBSCRIBER", "A" * 16, "B" * 255, "C" * 300]
 VERSIONS = [(1, 0), (2, 1), (3, 0), (3, 1), (4, 0)]
 MECHS = [b"NULL", b"PLAIN", b"CURVE", b"GSSAPI"]
 SIGS = ["ok", "byte0", "byte9"]
@@ -59,6 +62,9 @@ def cases(tier, rng):
     for local in wg.TYPES9:
         for pt in PEER_TYPES:
             out.append(build(local, pt, n=n, tag="compat-plane", **base))
+            n += 1
+        for pt in ODD_TYPES:
+            out.append(build(local, pt, n=n, tag="odd-socket-type", **base))
             n += 1
         good = wg.COMPAT[local][0]
         for v in VERSIONS:
